@@ -338,6 +338,11 @@ type HOp struct {
 func litText(s string) string { return s }
 
 const heapFuncs = `function getm(o) { return o.zq_never_there }
+function setkm(x, k, v) { match (1) { one => { x[k] = v } }
+ return 0 }
+function probe(o) { pc = 0
+ for (pi = 0; pi < 70; pi++) { if (o["zz" + pi] == null) { pc++ } }
+ return pc }
 function setk(o, k, v) { o[k] = v
  return 0 }
 function seti(a, i, v) { a[i] = v
@@ -381,6 +386,9 @@ func (op *HOp) render() string {
 		switch op.Fn {
 		case "setk":
 			return fmt.Sprintf("print \"R\", [setk(%s, %q, %s)]", op.T.String(), op.Key, litText(op.Lit))
+		case "setkm":
+			// the same through a parameter named like a global, used inside a case body
+			return fmt.Sprintf("print \"R\", [setkm(%s, %q, %s)]", op.T.String(), op.Key, litText(op.Lit))
 		case "seti":
 			return fmt.Sprintf("print \"R\", [seti(%s, %d, %s)]", op.T.String(), op.Idx, litText(op.Lit))
 		case "repl":
@@ -388,6 +396,10 @@ func (op *HOp) render() string {
 		default:
 			return fmt.Sprintf("print \"R\", [incp(%s)]", op.T.String())
 		}
+	case "assign-probe":
+		// the right-hand side reads seventy missing members of another object
+		// before the (possibly missing) target is assigned
+		return op.T.String() + " = probe(" + op.Src.String() + ")"
 	case "incdec-refused":
 		// ++ / -- on a location that cannot exist (a member of null or of a
 		// number, an index before the start of an array that is not there): the
@@ -839,14 +851,14 @@ func (h *Heap) apply(op *HOp) (string, error) {
 		}
 		r := ScanStream([]byte(op.Lit))
 		var lit HV
-		if op.Fn == "setk" || op.Fn == "seti" {
+		if op.Fn == "setk" || op.Fn == "seti" || op.Fn == "setkm" {
 			if r.Status != RefClean || len(r.Values) != 1 {
 				return "", errUnsupported{"bad literal"}
 			}
 			lit = fromJVal(r.Values[0].V)
 		}
 		switch op.Fn {
-		case "setk":
+		case "setk", "setkm":
 			if v.K != 'o' || heapMethodNames[op.Key] {
 				return "", errUnsupported{"setk needs an object"}
 			}
@@ -886,6 +898,16 @@ func (h *Heap) apply(op *HOp) (string, error) {
 		if err := h.refusedOK(op); err != nil {
 			return "", err
 		}
+		return "", nil
+	case "assign-probe":
+		if err := h.probeOK(op); err != nil {
+			return "", err
+		}
+		c, err := h.resolveForWrite(op.T)
+		if err != nil {
+			return "", err
+		}
+		c.V, c.absent = hNum(70), false
 		return "", nil
 	case "match-assign":
 		v, err := h.readPath(op.T)
@@ -1654,7 +1676,10 @@ func genHeapCase(t *Tape, maxOps int) *HeapCase {
 	n := 3 + t.Draw(maxOps)
 	for tries := 0; len(c.Ops) < n && tries < n*8; tries++ {
 		var op HOp
-		switch t.Weighted(6, 6, 3, 3, 5, 3, 1, 1, 1, 2, 1, 1, 1, 1, 1, 2, 2, 3, 2, 2) {
+		switch t.Weighted(6, 6, 3, 3, 5, 3, 1, 1, 1, 2, 1, 1, 1, 1, 1, 2, 2, 3, 2, 2, 2) {
+		case 20:
+			src := genHeapPath(t, h, c.Vars, false)
+			op = HOp{Kind: "assign-probe", T: genHeapPath(t, h, c.Vars, true), Src: &src}
 		case 19:
 			p := genHeapPath(t, h, c.Vars, false)
 			n := 0
@@ -1713,7 +1738,7 @@ func genHeapCase(t *Tape, maxOps int) *HeapCase {
 		case 4:
 			op = HOp{Kind: "read", T: genHeapPath(t, h, c.Vars, false)}
 		case 5:
-			op = HOp{Kind: "call", T: genHeapPath(t, h, c.Vars, false), Fn: []string{"setk", "seti", "repl", "incp"}[t.Draw(4)], Key: heapKeys[t.Draw(len(heapKeys))], Idx: t.Draw(4) - 1, Lit: heapScalarLits[t.Draw(len(heapScalarLits))]}
+			op = HOp{Kind: "call", T: genHeapPath(t, h, c.Vars, false), Fn: []string{"setk", "seti", "repl", "incp", "setkm"}[t.Draw(5)], Key: heapKeys[t.Draw(len(heapKeys))], Idx: t.Draw(4) - 1, Lit: heapScalarLits[t.Draw(len(heapScalarLits))]}
 		case 6:
 			op = HOp{Kind: "forin-set", T: genHeapPath(t, h, c.Vars, false), Key: heapKeys[t.Draw(len(heapKeys))], Lit: heapScalarLits[t.Draw(len(heapScalarLits))]}
 		case 7:
@@ -1895,6 +1920,59 @@ func (h *Heap) refusedOK(op *HOp) error {
 	return nil
 }
 
+func (h *Heap) probeOK(op *HOp) error {
+	if op.Src == nil {
+		return errUnsupported{"source"}
+	}
+	// the probed value must exist and be an object (missing members of an object read as null)
+	probe := HOp{Kind: "ret-member-assign", T: *op.Src}
+	if err := h.dryRun(&probe); err != nil {
+		return err
+	}
+	if err := h.methodPathExists(*op.Src); err != nil {
+		return err
+	}
+	if err := h.prevalidateWrite(op.T); err != nil {
+		return err
+	}
+	if h.createsIntermediate(op.T) && !h.allowChainCreate {
+		return errUnsupported{"intermediate"}
+	}
+	for _, st := range op.T.Steps {
+		if st.IsIdx && st.Idx < 0 {
+			return errUnsupported{"negative index"}
+		}
+	}
+	return nil
+}
+
+// methodPathExists: every step of p addresses something present.
+func (h *Heap) methodPathExists(p HPath) error {
+	v := h.cell(p.Base).V
+	for _, s := range p.Steps {
+		switch v.K {
+		case 'o':
+			m, ok := v.Obj.M[s.Key]
+			if s.IsIdx || !ok {
+				return errUnsupported{"path does not exist"}
+			}
+			v = m.V
+		case 'a':
+			idx := s.Idx
+			if idx < 0 {
+				idx += len(v.Arr.Items)
+			}
+			if !s.IsIdx || idx < 0 || idx >= len(v.Arr.Items) {
+				return errUnsupported{"path does not exist"}
+			}
+			v = v.Arr.Items[idx].V
+		default:
+			return errUnsupported{"path does not exist"}
+		}
+	}
+	return nil
+}
+
 func (h *Heap) selfChainOK(op *HOp) error {
 	if len(op.T.Steps) == 0 {
 		return errUnsupported{"self-chain needs a member or an index"}
@@ -1929,6 +2007,8 @@ func (h *Heap) dryRun(op *HOp) error {
 		return h.selfChainOK(op)
 	case "incdec-refused":
 		return h.refusedOK(op)
+	case "assign-probe":
+		return h.probeOK(op)
 	case "ret-member-assign":
 		v, err := h.readPath(op.T)
 		if err != nil {
@@ -1992,7 +2072,7 @@ func (h *Heap) dryRun(op *HOp) error {
 			return err
 		}
 		switch op.Fn {
-		case "setk":
+		case "setk", "setkm":
 			if v.K != 'o' {
 				return errUnsupported{"setk"}
 			}
